@@ -22,6 +22,8 @@ func init() {
 }
 
 func runC16(c *core.Ctx) {
+	c.Rule("TIMEEQ", "time.Time values are compared with Equal/Before/After, never with ==")
+	checkTimeEquality(c, "TIMEEQ", "execution", "execution/nodes", "octosql", "aggregates", "table_valued_functions", "outputs", "functions", "datasources")
 	p := c.Prog
 	ids := typeIDs(p)
 	c.Rule("ORD7", "end of stream: EndOfStreamReached → final trigger → return")
